@@ -41,9 +41,9 @@ Proof.
   destruct (split1 bang data) as [[a b]|]; intros E; inversion E; subst; apply unquote_str_scalar; exact Huq.
 Qed.
 
-Lemma apply_dec_ok k u u' : apply_dec uni k u = Some u' -> uval_ok u'.
+Lemma apply_dec_ok k u u' : uval_ok u -> apply_dec uni k u = Some u' -> uval_ok u'.
 Proof.
-  unfold apply_dec, option_map. destruct k, u; cbv beta iota zeta;
+  intros Hok. unfold apply_dec, option_map. destruct k, u; cbv beta iota zeta;
     repeat match goal with
     | |- context [match ?x with _ => _ end] =>
         lazymatch x with
@@ -174,6 +174,37 @@ Proof.
   unfold joined, shown_tokens. apply tokens_split_back; [discriminate|exact Htok].
 Qed.
 
+(* ------------------------------------------------------------------ (4) legacy 'userid_type:unicode' tickets *)
+Definition unicode_tag : text := [117; 110; 105; 99; 111; 100; 101]%N.
+
+Lemma legacy_ud_split : split_on pipe legacy_ud = [userid_typename ++ unicode_tag].
+Proof. vm_compute. reflexivity. Qed.
+
+(* what identify() does with a validly signed legacy ticket, by the decoder the table holds for 'unicode':
+   with the original entry (utf_8_decode applied to the str parse_ticket hands over) it RAISES; with the repaired entry
+   (identity on str) it yields what the property demands *)
+Theorem legacy_unicode_identify c r x :
+  spec_legacy_unicode H dsz uni c r = Some x ->
+  match lookup_text unicode_tag decoders with
+  | Some DUtf8Text => identify_pre H dsz uni c r = x
+  | Some DUtf8 => identify_pre H dsz uni c r = match x with INone => INone | _ => IRaise end
+  | _ => True
+  end.
+Proof.
+  unfold spec_legacy_unicode, identify_pre, digest_ok, parse_ticket.
+  destruct (cookie r) as [ck0|]; [|discriminate].
+  destruct (eff_ip c r) as [ip|]; [|discriminate].
+  destruct (parse_fields dsz uni (hashalg c) ck0) as [d ts uid tk ud|]; [|discriminate].
+  destruct (text_eqb_spec ud legacy_ud) as [->|]; [|discriminate]. cbn [andb].
+  destruct (text_eqb_spec d (calculate_digest H (hashalg c) ip ts (secret c) uid tk legacy_ud)) as [->|]; [|discriminate].
+  cbn [andb]. destruct (forallb valid_token (filter nonempty (split_on comma tk))); [|discriminate].
+  intros E; inversion E; subst x; clear E.
+  unfold strings_differ. rewrite text_eqb_refl. cbn [negb].
+  rewrite legacy_ud_split, decode_one.
+  destruct (lookup_text unicode_tag decoders) as [[| | | |]|]; try exact I;
+    destruct (timed_out c ts (now2 r)); reflexivity.
+Qed.
+
 End W6.
 
 (* non-vacuity: a non-ASCII user id signed through AuthTicket parses back; a foreign-signed ticket whose user_data names
@@ -183,4 +214,14 @@ Example w6_nonvacuous :
     (cookie_value ex_H [109]%N (IP4 [0; 0; 0; 0]%N) 1000 [115]%N [233; 8364; 128512]%N [[97]%N] [120]%N) (IP4 [0; 0; 0; 0]%N) [109]%N
   = POk 1000 [233; 8364; 128512]%N [[97]%N] [120]%N
   /\ valid_token [97; 44; 98]%N = false /\ valid_token [97; 33]%N = false /\ valid_token [97; 10]%N = true.
+Proof. vm_compute. repeat split. Qed.
+
+(* non-vacuity: a legacy ticket for 'bob' signed with ex_cfg's secret falls under spec_legacy_unicode (and expires) *)
+Definition ex_legacy : text :=
+  cookie_value ex_H [109]%N (IP4 [0; 0; 0; 0]%N) 1000 [115; 101; 99]%N [98; 111; 98]%N [] legacy_ud.
+Example legacy_nonvacuous :
+  spec_legacy_unicode ex_H (fun _ => 2%nat) (fun _ => 63%N) ex_cfg (ex_req (Some ex_legacy) 1001)
+    = Some (ISome 1000 (VStr [98; 111; 98]%N) [[]] legacy_ud)
+  /\ spec_legacy_unicode ex_H (fun _ => 2%nat) (fun _ => 63%N) ex_cfg (ex_req (Some ex_legacy) 1011) = Some INone
+  /\ spec_legacy_unicode ex_H (fun _ => 2%nat) (fun _ => 63%N) ex_cfg (ex_req (Some ex_cookie) 1001) = None.
 Proof. vm_compute. repeat split. Qed.
